@@ -398,6 +398,55 @@ func main() {
 			}
 			out.Count("reset-restart-append-probes")
 		}
+		// ... or: the log is moved to the end of its first index page (262144 entries per page), a few messages are appended
+		// across the page boundary while the acknowledged position stays behind in the first page, and GC runs (the periodic
+		// clean-up calls it): every message above the acknowledged position still reads back, live and after a reopen
+		if !big && resetProbe == "" && q != nil && r.Chance(25) {
+			const perPage = 262144
+			app := q.AppendedSeq()
+			if app < perPage-40 {
+				start := int64(perPage - 1 - r.Range(1, 5))
+				q.SetAppendedSeq(start) // acknowledged = appended = start
+				want := map[int64]int{}
+				for k := 0; k < r.Range(3, 9); k++ {
+					id, n := nextID+2000+k, r.Range(4, 60)
+					if _, err := doPut(q, id, n, 0, false); err != nil {
+						resetProbe = "append across the index page boundary: " + err.Error()
+						break
+					}
+					sent = append(sent, rec{id, n})
+					want[q.AppendedSeq()] = id
+				}
+				if r.Bool() {
+					q.SetAcknowledgedSeq(start + 1) // still in the first index page
+				}
+				q.GC()
+				verify := func(when string) {
+					for sq, id := range want {
+						if sq <= q.AcknowledgedSeq() {
+							continue
+						}
+						b, err := q.Get(sq)
+						if err != nil || identify(b, sent) != id {
+							resetProbe = fmt.Sprintf("messages appended across the index page boundary at %d, acknowledged position %d, GC: %s Get(%d) fails or returns other bytes (err %v)",
+								perPage, q.AcknowledgedSeq(), when, sq, err)
+							return
+						}
+					}
+				}
+				verify("live,")
+				if resetProbe == "" {
+					q.Close()
+					var err error
+					if q, err = queue.NewQueue(dir, 0); err != nil {
+						resetProbe = "reopen after GC: " + err.Error()
+					} else {
+						verify("after a reopen,")
+					}
+				}
+				out.Count("gc-across-index-pages-probes")
+			}
+		}
 		if q != nil {
 			q.Close()
 		}
